@@ -624,7 +624,9 @@ func isMaxInt64(v ssa.Value) bool {
 // means "the 512 MiB default" (baseFilter.decodeLimit). Every composite value of baseFilter (alone or embedded in a
 // filter type) that pkg/filter builds must therefore store that field, and not the constant 0; a literal that
 // leaves it out makes that one filter ignore the configuration while its siblings honour it.
-func checkFilterValuesCarryLimit(c *Ctx) {
+func checkFilterValuesCarryLimit(c *Ctx) { checkFilterValuesCarryLimitAs(c, "C16.R7") }
+
+func checkFilterValuesCarryLimitAs(c *Ctx, rule string) {
 	p, r := c.P, c.R
 	n := 0
 	isBase := func(t types.Type) bool {
@@ -707,15 +709,15 @@ func checkFilterValuesCarryLimit(c *Ctx) {
 			walk(al, 0)
 			switch {
 			case len(stored) == 0:
-				r.Bad("C16.R7", FuncID(fn), construct, p.Pos(al.Pos()), "a filter value is built without maxDecodeBytes: baseFilter.decodeLimit reads the zero as the 512 MiB default, so this filter ignores a configured decode limit that its siblings enforce")
+				r.Bad(rule, FuncID(fn), construct, p.Pos(al.Pos()), "a filter value is built without maxDecodeBytes: baseFilter.decodeLimit reads the zero as the 512 MiB default, so this filter ignores a configured decode limit that its siblings enforce")
 			case isZeroConst(stored[0]):
-				r.Bad("C16.R7", FuncID(fn), construct, p.Pos(al.Pos()), "a filter value is built with maxDecodeBytes = 0 (read as the 512 MiB default): the configured limit is not handed on")
+				r.Bad(rule, FuncID(fn), construct, p.Pos(al.Pos()), "a filter value is built with maxDecodeBytes = 0 (read as the 512 MiB default): the configured limit is not handed on")
 			default:
-				r.OK("C16.R7", FuncID(fn), construct, p.Pos(al.Pos()), "maxDecodeBytes is stored from "+exprName(stored[0]), true)
+				r.OK(rule, FuncID(fn), construct, p.Pos(al.Pos()), "maxDecodeBytes is stored from "+exprName(stored[0]), true)
 			}
 		})
 	}
 	if n == 0 {
-		r.Bad("C16.R7", "pkg/filter.NewFilter", "anchor", "", "UNRESOLVED-ANCHOR: no composite literal of a filter type found in pkg/filter")
+		r.Bad(rule, "pkg/filter.NewFilter", "anchor", "", "UNRESOLVED-ANCHOR: no composite literal of a filter type found in pkg/filter")
 	}
 }
